@@ -204,8 +204,16 @@ func (x *Exec) loopFrameNames(ws *writeSet, s *State) []string {
 			names = append(names, k)
 		}
 	} else {
+		seen := map[string]bool{}
 		for k := range ws.names {
 			names = append(names, k)
+			seen[k] = true
+		}
+		for _, b := range ws.blocks {
+			if !seen[b.mem] {
+				seen[b.mem] = true
+				names = append(names, b.mem)
+			}
 		}
 	}
 	sort.Strings(names)
